@@ -45,8 +45,8 @@ def rexpr(e):
     return '(%s%s%s)' % (rexpr(e['a']), ' %s ' % o if o in ('MOD', 'AND', 'OR') else o, rexpr(e['b']))
 
 
-TRAPSTMT = {1: 'KEY(1)', 2: 'KEY(2)', 3: 'PEN'}
-ONTRAP = {1: 'ON KEY(1) GOSUB %d', 2: 'ON KEY(2) GOSUB %d', 3: 'ON PEN GOSUB %d'}
+TRAPSTMT = {1: 'KEY(1)', 2: 'KEY(2)', 3: 'PEN', 4: 'STRIG(0)'}
+ONTRAP = {1: 'ON KEY(1) GOSUB %d', 2: 'ON KEY(2) GOSUB %d', 3: 'ON PEN GOSUB %d', 4: 'ON STRIG(0) GOSUB %d'}
 
 
 def rstmt(st, rest=None):
@@ -367,7 +367,7 @@ class Gen(object):
             self.line([{'op': 'RESTORE', 'n': self.r.choice([0, 0, ('anyline', 0), ('anyline', 1), 64000])}])
 
     def trap_stmt(self):
-        k = self.r.choice([1, 2, 3])
+        k = self.r.choice([1, 2, 3, 4])
         self.line([{'op': 'TRAP', 'k': k, 'c': self.r.choice(['ON', 'ON', 'OFF', 'STOP', 'ON'])}])
 
     def handler_body(self, kind):
@@ -399,7 +399,7 @@ class Gen(object):
         self.budget = size
         main_first = None
         if 'trap' in self.p:
-            for k in (1, 2, 3):
+            for k in (1, 2, 3, 4):
                 if self.r.random() < 0.8:
                     self.line([{'op': 'ONTRAP', 'k': k, 'n': ('trap', k)}])
                 if self.r.random() < 0.7:
@@ -448,7 +448,7 @@ class Gen(object):
             self.line([{'op': 'RETURN', 'n': 0 if self.r.random() < 0.9 else ('anyline', 2)}])
         # fix first sub line marks: the mark is the number of the first line of the sub
         if 'trap' in self.p:
-            for k in (1, 2, 3):
+            for k in (1, 2, 3, 4):
                 self.n += 10
                 marks[('trap', k)] = self.n + 1
                 self.line([{'op': 'PRINT', 'e': C(200 + k)}])
@@ -456,7 +456,7 @@ class Gen(object):
                 if r < 0.25:
                     self.line([{'op': 'TRAP', 'k': k, 'c': self.r.choice(['ON', 'OFF', 'STOP'])}])
                 elif r < 0.4:
-                    self.line([{'op': 'TRAP', 'k': self.r.choice([1, 2, 3]), 'c': self.r.choice(['ON', 'OFF', 'STOP'])}])
+                    self.line([{'op': 'TRAP', 'k': self.r.choice([1, 2, 3, 4]), 'c': self.r.choice(['ON', 'OFF', 'STOP'])}])
                 if self.r.random() < 0.5:
                     self.line([self.simple(), self.simple()])
                 if 'err' in self.p and self.r.random() < 0.2:
@@ -546,6 +546,8 @@ class Runner(object):
             q.put(signals.Event(signals.KEYB_DOWN, (KEYSIG[k][0], KEYSIG[k][1], [])))
         elif k == 3:
             q.put(signals.Event(signals.PEN_DOWN, (1, 1)))
+        elif k == 4:
+            q.put(signals.Event(signals.STICK_DOWN, (0, 0)))
 
     def run(self, pi, varnames, schedule=None, budget=600, on_boundary=None):
         """RUN the loaded program. schedule: {boundary index (1-based): [trap ids]}. Returns the event list."""
